@@ -188,6 +188,35 @@ def cli_cases(ctx, n):
         shutil.rmtree(d, ignore_errors=True)
 
 
+def float_collision_cases(rng):
+    """directed: two DIFFERENT integers that convert to the same float64 (|v| >= 2^53, difference 1 or 2), stored in
+    every pair of integer dtypes that can hold them — in particular int64 next to uint64, which numpy would promote to
+    float64: they must compare unequal under every predicate and tolerance"""
+    cases, tagsl = [], []
+    wide = ["i64", "u64"]
+    for da in wide:
+        for db in wide:
+            for v in (2 ** 53, 2 ** 53 + 1, 2 ** 60 + 1, 2 ** 62 + 3, 2 ** 63 - 2):
+                for delta in (1, -1, 2):
+                    w = v + delta
+                    if not (INTS[da][0] <= v <= INTS[da][1] and INTS[db][0] <= w <= INTS[db][1]):
+                        continue
+                    if float(v) != float(w):
+                        continue
+                    n = rng.choice([1, 2, 3])
+                    i = rng.randrange(n)
+                    a = [rng.randint(0, 100) for _ in range(n)]
+                    b = list(a)
+                    a[i], b[i] = v, w
+                    kind = rng.choice(["default", "default", "exact"])
+                    rel = rng.choice(TOLS)
+                    abs_ = rng.choice([t for t in TOLS if t[0] != "dflt"])
+                    cases.append({"kind": kind, "rel": rel, "abs": abs_, "a": {"dt": da, "shape": [n], "v": a},
+                                  "b": {"dt": db, "shape": [n], "v": b}})
+                    tagsl.append(["int-int", "float64-collision", f"{da}/{db}"])
+    return cases, tagsl
+
+
 def run(ctx):
     ctx.rule = ("cases = (predicate kind, tolerances, a, b) over int8..uint64 (same and mixed types, type extremes, "
                 "±1 around 2^53), unicode strings, int×float64, float64; one differing entry at none/first/middle/last; "
@@ -201,6 +230,8 @@ def run(ctx):
     for _ in range(n):
         c, t = gen_case(rng)
         cases.append(c); tagsl.append(t)
+    dc, dt = float_collision_cases(rng)
+    cases += dc; tagsl += dt
     for i in range(0, len(cases), 5000):
         evaluate(ctx, cases[i:i + 5000], tagsl[i:i + 5000])
     cli_cases(ctx, ctx.scale(60, 2000))
